@@ -22,6 +22,7 @@ QUICK = {
     'onerr': ['plain', 'policy', 'required', 'defaults'],
     'defer': ['plain', 'defaults', 'required'],
     'depio': ['plain', 'required'],
+    'aliasgen': ['plain', 'addition'],
     'mix': [g for g in GROUPS if g != 'params'],
 }
 
@@ -45,7 +46,7 @@ def sym_options(V, group):
             if V.bool(g):
                 o[g] = 0
         elif g == 'addition':
-            a = V.pick('addition', [None, True, False, int])
+            a = V.pick('addition', [None, True, False, int, dcspec.LIST_INT])
             if a is not None:
                 o['addition'] = a
         elif g == 'params':
